@@ -391,12 +391,14 @@ Proof.
   assert (G : good pr vars vals0 vals0 vars None).
   { unfold good. split; [reflexivity|]. split; [rewrite Hv; exact Hbox|]. split; [reflexivity|].
     split; [symmetry; exact Hv | left; reflexivity]. }
-  pose proof (oc_loop_invariant pr obs (match maxvol with Some v => v | None => osum ROOps vals0 end) bfuel vars vals0 cum Hcat Hm Hobs
+  change (o0 ROOps) with 0.
+  match goal with |- context [oc_loop ROOps pr obs ?m bfuel cum (maxit pr) 0%nat vals0 vars 0 None] => set (mv := m) end.
+  pose proof (oc_loop_invariant pr obs mv bfuel vars vals0 cum Hcat Hm Hobs
                 (maxit pr) 0%nat vals0 vars 0 None G) as [I1 [I2 [I3 [[L I4] I5]]]].
-  change (o0 ROOps) with 0. split; [exact I1|]. split.
+  split; [exact I1|]. split.
   - unfold all_designs in *. apply Forall_app. split; [|constructor; [exact I2 | constructor]].
     apply Forall_map. eapply Forall_impl; [|exact I1]. intros d [H _]. exact H.
-  - split; [exact I5|]. split; [exact I3|]. Set Printing All. Show. rewrite I4, Hv. reflexivity.
+  - split; [exact I5|]. split; [exact I3|]. rewrite I4, Hv. reflexivity.
 Qed.
 
 (* ------------------------------------------------------------------ fixed point for  f = sum c_i / x_i *)
